@@ -14,6 +14,12 @@ Theorem C50_dynar_refines_list : forall junk d o,
 Proof. exact dynar_refines_list. Qed.
 Print Assumptions C50_dynar_refines_list.
 
+(* an insertion beyond the end is undefined on a list; the model (and the C code since the fix: commit) stops there.
+   The pinned code did not: push 1; insert_at(5, 9) gave length 2, contents [1, 0], the 9 written out of bounds. *)
+Example C50_insert_beyond_end_is_stopped : forall junk,
+  Dynar.step junk (mkD [1%Z; 7%Z] 1) (InsertAt 5 9) = None /\ spec_step [1%Z] (InsertAt 5 9) = None.
+Proof. intro junk. split; reflexivity. Qed.
+
 (* whole histories of any length: same answers, stopped at the same operation, final contents related *)
 Theorem C50_dynar_history_refines : forall junk ops d, DynarProofs.Inv d ->
   match run_c junk d ops, run_s (abs d) ops with
